@@ -106,8 +106,7 @@ theorem Inv_executionAllowed_ok_iff_spec {X : Type} (x : X) (args : Node) (undef
       exact hpol c d hc
     have e1 : Gen.Inv_verifyProofs g gs = .ok () ↔
         Chain.PrincipalSpec (toInv x args g) (gs.map (toDlg undef pol)) ∧ Chain.CommandSpec (toInv x args g) (gs.map (toDlg undef pol)) := by
-      rw [Inv_verifyProofs_eq x args undef pol g gs hs hlen, ← Chain.verifyProofs_ok_iff]
-      cases Chain.verifyProofs (toInv x args g) (gs.map (toDlg undef pol)) <;> simp [Except.mapError]
+      exact Inv_verifyProofs_ok_iff_spec x args undef pol g gs hs hlen
     have e2 : Gen.Inv_verifyTimeBound now g gs = .ok () ↔ Chain.TimeSpec now (toInv x args g) (gs.map (toDlg undef pol)) := by
       rw [Inv_verifyTimeBound_eq, Inv_verifyTimeBoundAt_eq x args undef pol g gs now hlen, ← Chain.verifyTime_ok_iff]
       cases Chain.verifyTime now (toInv x args g) (gs.map (toDlg undef pol)) <;> simp [Except.mapError]
